@@ -89,7 +89,7 @@ def main(chk):
     native.build(); native.build('release')
     q = chk.tier == 'quick'
     hs = [h_script(7 if q else 9), h_all_set_orders()]
-    if not q: hs.append(h_script(7))
+    hs.append(h_script(5) if q else h_script(7))
     chk.add(kani.run_family_set('C16', hs, jobs=4, timeout_s=300 if q else 1800))
     chk.assumptions += ['Kani/CBMC bit-precise on the dev-profile build of /repo (path dependency); counterexamples replayed natively in dev and release']
     chk.notes += ['scripts longer than the stated number of setter calls']
